@@ -18,6 +18,7 @@ import (
 	"sort"
 	"strconv"
 
+	"github.com/openGemini/openGemini/engine/immutable"
 	"verifharness/internal/gen"
 	"verifharness/internal/tsdrv"
 )
@@ -25,13 +26,15 @@ import (
 const NT = 12 // timestamps 0..11
 
 type Op struct {
-	K     string      `json:"k"` // W F FB FE LC FC MO MS R
+	K     string      `json:"k"` // W F FB FE LC FC MO MS R | BG (background tick) | MOB (the tick's non-forced merge)
 	Rows  []tsdrv.Row `json:"rows,omitempty"`
 	Level int         `json:"level,omitempty"`
+	Bg    bool        `json:"bg,omitempty"` // a step the background tick (real planner, real schedule) made
+	X     *XRead      `json:"x,omitempty"`  // K = "X": an explicit statement-level read (corpus witnesses)
 	// observations after the op
-	Files []tsdrv.File             `json:"files"`
+	Files []tsdrv.File              `json:"files"`
 	Dump  map[string][]tsdrv.OutRow `json:"dump"` // all fields, full range, ascending; key = series
-	Err   string                   `json:"err,omitempty"`
+	Err   string                    `json:"err,omitempty"`
 }
 
 type Fail struct {
@@ -44,14 +47,19 @@ type Fail struct {
 }
 
 type History struct {
-	Case    int    `json:"case"`
-	NWal    int    `json:"nwal"`
-	NSer    int    `json:"nser"`
-	Ops     []Op   `json:"ops"`
-	Oracle  []Fail `json:"oracle"`
-	Queries int    `json:"queries"`
-	Flags   Flags  `json:"flags"`
-	Crash   string `json:"crash,omitempty"`
+	Case    int            `json:"case"`
+	NWal    int            `json:"nwal"`
+	NSer    int            `json:"nser"`
+	Auto    bool           `json:"auto,omitempty"` // a background tick (merge + level compaction schedule) follows every flush / reopen
+	In      []Op           `json:"in,omitempty"`   // the generated ops (Ops additionally holds the steps the background ticks made)
+	Ops     []Op           `json:"ops"`
+	Oracle  []Fail         `json:"oracle"`
+	XOracle []XFail        `json:"xoracle,omitempty"` // failures of the statement-level reads (reads.go)
+	XReads  int            `json:"xreads"`
+	XKinds  map[string]int `json:"xkinds,omitempty"`
+	Queries int            `json:"queries"`
+	Flags   Flags          `json:"flags"`
+	Crash   string         `json:"crash,omitempty"`
 }
 
 type Flags struct {
@@ -64,6 +72,7 @@ type Flags struct {
 	Merged         bool `json:"merged"`
 	Reopened       bool `json:"reopened"`
 	OOOFile        bool `json:"ooo_file"`
+	Background     bool `json:"background"` // a background tick (planner-chosen merge / compaction schedule) changed the layout
 }
 
 // ---- generation ----
@@ -185,10 +194,12 @@ func genHistory(r *gen.Rand) (int, int, []Op) {
 			ops = append(ops, Op{K: "LC", Level: r.Intn(2)})
 		case x < 81:
 			ops = append(ops, Op{K: "FC"})
-		case x < 88:
+		case x < 86:
 			ops = append(ops, Op{K: "MO"})
-		case x < 92:
+		case x < 89:
 			ops = append(ops, Op{K: "MS"})
+		case x < 93:
+			ops = append(ops, Op{K: "BG"})
 		default:
 			ops = append(ops, Op{K: "R"})
 		}
@@ -229,8 +240,8 @@ func queries(r *gen.Rand) []tsdrv.Query {
 	return qs
 }
 
-func runHistory(idx int, work string, nser, nwal int, ops []Op, qr *gen.Rand) (h History) {
-	h = History{Case: idx, NWal: nwal, NSer: nser, Ops: ops}
+func runHistory(idx int, work string, nser, nwal int, auto bool, in []Op, qr *gen.Rand) (h History) {
+	h = History{Case: idx, NWal: nwal, NSer: nser, Auto: auto, In: in, XKinds: map[string]int{}}
 	dir := filepath.Join(work, "c02", strconv.Itoa(idx))
 	_ = os.RemoveAll(dir)
 	defer os.RemoveAll(dir)
@@ -251,11 +262,11 @@ func runHistory(idx int, work string, nser, nwal int, ops []Op, qr *gen.Rand) (h
 	defer func() { _ = sh.Close() }()
 	lww := tsdrv.NewLWW()
 	// bookkeeping for the coverage flags
-	gen_ := 0                          // flush generation
-	lastGen := map[tsdrv.Key]int{}     // generation of the last write of a key
-	flushedMax := map[int]int{}        // per series: max time flushed so far
-	memMax := map[int]int{}            // per series: max time in memtable
-	rowFields := map[[2]int]int{}      // fields ever written per (s,t)
+	gen_ := 0                      // flush generation
+	lastGen := map[tsdrv.Key]int{} // generation of the last write of a key
+	flushedMax := map[int]int{}    // per series: max time flushed so far
+	memMax := map[int]int{}        // per series: max time in memtable
+	rowFields := map[[2]int]int{}  // fields ever written per (s,t)
 	bump := func() {
 		gen_++
 		for s, t := range memMax {
@@ -266,8 +277,125 @@ func runHistory(idx int, work string, nser, nwal int, ops []Op, qr *gen.Rand) (h
 		memMax = map[int]int{}
 	}
 	pausedLive := false
-	for i := range ops {
-		op := &ops[i]
+	var prevFiles []tsdrv.File
+	xreads := os.Getenv("VERIF_C02_XREADS") != "none"
+
+	// observe: file listing + reads after an executed op; the op is appended to h.Ops. false = abort the history
+	observe := func(op Op) bool {
+		i := len(h.Ops)
+		files, err := sh.Files()
+		if err != nil {
+			h.Crash = "files: " + err.Error()
+			return false
+		}
+		op.Files = files
+		for _, f := range files {
+			if !f.Order {
+				h.Flags.OOOFile = true
+			}
+		}
+		changed := i > 0 && !sameFiles(prevFiles, files)
+		if changed && (op.K == "LC" || op.K == "FC") {
+			h.Flags.Compacted = true
+		}
+		if changed && (op.K == "MO" || op.K == "MS" || op.K == "MOB") {
+			h.Flags.Merged = true
+		}
+		if changed && op.Bg {
+			h.Flags.Background = true
+		}
+		prevFiles = files
+		if pausedLive {
+			h.Flags.Snapshot = true
+		}
+		for qi, q := range queries(qr) {
+			d, arrival, err := sh.DumpOrdered(q)
+			h.Queries++
+			if err != nil {
+				h.Oracle = append(h.Oracle, Fail{Op: i, Query: q, What: "query error: " + err.Error()})
+				continue
+			}
+			if qi == 0 {
+				op.Dump = map[string][]tsdrv.OutRow{}
+				for s, rows := range d {
+					op.Dump[strconv.Itoa(s)] = rows
+				}
+			}
+			if q.Flat && q.Parallel == 1 { // one merged stream: globally sorted by time
+				for k := 1; k < len(arrival); k++ {
+					if arrival[k].T != arrival[k-1].T && (arrival[k].T > arrival[k-1].T) != q.Asc {
+						h.Oracle = append(h.Oracle, Fail{Op: i, Query: q, Series: arrival[k].S, What: "merged stream not sorted by time"})
+						break
+					}
+				}
+			}
+			for s := 0; s < nser; s++ {
+				want := lww.Rows(s, q, NT)
+				if !q.Asc {
+					want = tsdrv.Reverse(want)
+				}
+				if !tsdrv.EqRows(want, d[s]) {
+					h.Oracle = append(h.Oracle, Fail{Op: i, Query: q, Series: s, Want: want, Got: d[s], What: classify(want, d[s], q.Asc)})
+				}
+			}
+		}
+		if op.K == "X" && op.X != nil {
+			c := &xctx{op: i, sh: sh, lww: lww, nser: nser}
+			h.XOracle = append(h.XOracle, c.runRead(*op.X)...)
+			h.XReads++
+			h.XKinds[op.X.Kind]++
+		}
+		if xreads && qr.Chance(2, 3) {
+			xf, n := extraReads(i, sh, lww, qr, nser, files, h.XKinds)
+			h.XOracle = append(h.XOracle, xf...)
+			h.XReads += n
+		}
+		h.Ops = append(h.Ops, op)
+		return true
+	}
+
+	// one tick of the background machinery, synchronously and in the order Compactor.run uses: the out-of-order merge
+	// with the planner's own (non-forced) trigger, then shard.Compact's schedule = LevelCompact for every level of
+	// immutable.LevelCompactRule; every plan is the real planner's. Each step that changed the layout is observed as
+	// an op of its own (MOB / LC, bg=true); a tick that changed nothing is observed once as BG.
+	tick := func() bool {
+		did := false
+		step := func(op Op, f func() error) bool {
+			if err := f(); err != nil {
+				op.Err = err.Error()
+			}
+			files, err := sh.Files()
+			if err != nil {
+				h.Crash = "files: " + err.Error()
+				return false
+			}
+			if op.Err != "" || !sameFiles(prevFiles, files) {
+				did = true
+				return observe(op)
+			}
+			return true
+		}
+		sh.V.SetBackground(true, true)
+		defer sh.V.SetBackground(false, false)
+		if !step(Op{K: "MOB", Bg: true}, func() error { return sh.V.MergeOutOfOrder(false, false) }) {
+			return false
+		}
+		for _, lv := range immutable.LevelCompactRule {
+			lv := lv
+			if !step(Op{K: "LC", Level: int(lv), Bg: true}, func() error { return sh.V.LevelCompact(lv) }) {
+				return false
+			}
+		}
+		if !did {
+			return observe(Op{K: "BG", Bg: true})
+		}
+		return true
+	}
+
+	for i := range in {
+		op := in[i]
+		op.Files, op.Dump, op.Err = nil, nil, ""
+		flushed := false
 		switch op.K {
 		case "W":
 			seen := map[[2]int]bool{}
@@ -305,6 +433,7 @@ func runHistory(idx int, work string, nser, nwal int, ops []Op, qr *gen.Rand) (h
 		case "F":
 			sh.V.ForceFlush()
 			bump()
+			flushed = true
 		case "FB":
 			if sh.V.BeginPausedFlush() {
 				pausedLive = true
@@ -315,6 +444,7 @@ func runHistory(idx int, work string, nser, nwal int, ops []Op, qr *gen.Rand) (h
 		case "FE":
 			sh.V.FinishPausedFlush()
 			pausedLive = false
+			flushed = true
 		case "LC":
 			sh.V.SetBackground(true, false)
 			if err := sh.V.LevelCompact(uint16(op.Level)); err != nil {
@@ -346,57 +476,24 @@ func runHistory(idx int, work string, nser, nwal int, ops []Op, qr *gen.Rand) (h
 			}
 			bump()
 			h.Flags.Reopened = true
-		}
-		// observe
-		files, err := sh.Files()
-		if err != nil {
-			h.Crash = "files: " + err.Error()
-			return
-		}
-		op.Files = files
-		for _, f := range files {
-			if !f.Order {
-				h.Flags.OOOFile = true
-			}
-		}
-		if i > 0 && (op.K == "LC" || op.K == "FC") && !sameFiles(ops[i-1].Files, files) {
-			h.Flags.Compacted = true
-		}
-		if i > 0 && (op.K == "MO" || op.K == "MS") && !sameFiles(ops[i-1].Files, files) {
-			h.Flags.Merged = true
-		}
-		if pausedLive {
-			h.Flags.Snapshot = true
-		}
-		for qi, q := range queries(qr) {
-			d, arrival, err := sh.DumpOrdered(q)
-			h.Queries++
-			if err != nil {
-				h.Oracle = append(h.Oracle, Fail{Op: i, Query: q, What: "query error: " + err.Error()})
+			flushed = true
+		case "BG":
+			if op.Bg { // a recorded step of an earlier run: the tick is re-derived from the generated op
 				continue
 			}
-			if qi == 0 {
-				op.Dump = map[string][]tsdrv.OutRow{}
-				for s, rows := range d {
-					op.Dump[strconv.Itoa(s)] = rows
-				}
+			if !tick() {
+				return
 			}
-			if q.Flat && q.Parallel == 1 { // one merged stream: globally sorted by time
-				for k := 1; k < len(arrival); k++ {
-					if arrival[k].T != arrival[k-1].T && (arrival[k].T > arrival[k-1].T) != q.Asc {
-						h.Oracle = append(h.Oracle, Fail{Op: i, Query: q, Series: arrival[k].S, What: "merged stream not sorted by time"})
-						break
-					}
-				}
-			}
-			for s := 0; s < nser; s++ {
-				want := lww.Rows(s, q, NT)
-				if !q.Asc {
-					want = tsdrv.Reverse(want)
-				}
-				if !tsdrv.EqRows(want, d[s]) {
-					h.Oracle = append(h.Oracle, Fail{Op: i, Query: q, Series: s, Want: want, Got: d[s], What: classify(want, d[s], q.Asc)})
-				}
+			continue
+		case "MOB":
+			continue // only ever derived
+		}
+		if !observe(op) {
+			return
+		}
+		if auto && flushed && !pausedLive {
+			if !tick() {
+				return
 			}
 		}
 	}
@@ -404,6 +501,20 @@ func runHistory(idx int, work string, nser, nwal int, ops []Op, qr *gen.Rand) (h
 		sh.V.FinishPausedFlush()
 	}
 	return
+}
+
+// inputOps: the generated ops of a stored history (steps recorded from background ticks are re-derived, not replayed)
+func inputOps(h History) []Op {
+	if len(h.In) > 0 {
+		return h.In
+	}
+	var out []Op
+	for _, o := range h.Ops {
+		if !o.Bg {
+			out = append(out, o)
+		}
+	}
+	return out
 }
 
 func sameFiles(a, b []tsdrv.File) bool {
@@ -457,10 +568,7 @@ func main() {
 			fmt.Fprintln(os.Stderr, err)
 			os.Exit(2)
 		}
-		for i := range h.Ops {
-			h.Ops[i].Files, h.Ops[i].Dump, h.Ops[i].Err = nil, nil, ""
-		}
-		out := runHistory(h.Case, work, h.NSer, h.NWal, h.Ops, gen.FromEnv(2002))
+		out := runHistory(h.Case, work, h.NSer, h.NWal, h.Auto, inputOps(h), gen.FromEnv(2002))
 		_ = enc.Encode(out)
 		return
 	}
@@ -478,10 +586,7 @@ func main() {
 			if json.Unmarshal(b, &h) != nil {
 				continue
 			}
-			for i := range h.Ops {
-				h.Ops[i].Files, h.Ops[i].Dump, h.Ops[i].Err = nil, nil, ""
-			}
-			out := runHistory(100000+idx, work, h.NSer, h.NWal, h.Ops, gen.FromEnv(2002).Fork())
+			out := runHistory(100000+idx, work, h.NSer, h.NWal, h.Auto, inputOps(h), gen.FromEnv(2002).Fork())
 			_ = enc.Encode(out)
 			idx++
 		}
@@ -490,6 +595,7 @@ func main() {
 	for i := 0; i < n; i++ {
 		r := master.Fork()
 		nser, nwal, ops := genHistory(r)
+		auto := r.Chance(3, 10)
 		if only := os.Getenv("VERIF_ONLY"); only != "" && only != strconv.Itoa(i) {
 			continue
 		}
@@ -497,7 +603,7 @@ func main() {
 			b, _ := json.Marshal(History{Case: i, NWal: nwal, NSer: nser, Ops: ops})
 			fmt.Fprintf(os.Stderr, "BEGIN %s\n", b)
 		}
-		out := runHistory(i, work, nser, nwal, ops, r.Fork())
+		out := runHistory(i, work, nser, nwal, auto, ops, r.Fork())
 		_ = enc.Encode(out)
 	}
 }
